@@ -667,7 +667,7 @@ Definition ke_round_away : kx :=
 Fixpoint ke_mul_chain (sb : ity) (k : nat) : kx :=
   match k with O => v0 | S k' => KOp2 (OMul sb) (ke_mul_chain sb k') v0 end.
 Definition ke_integer_pow (sb : ity) (n : nat) : kx :=
-  match n with O => KOp2 (OPow sb) v0 (kz 0) | S O => KOp1 OIdentity v0 | S k => ke_mul_chain sb k end.
+  match n with O => KOp2 (OAdd sb) (KOp2 (OMul sb) v0 (kz 0)) (kz 1) | S O => KOp1 OIdentity v0 | S k => ke_mul_chain sb k end.
 Definition ke_convert_int (t : ity) : kx := KOp1 (OCast t) v0.
 Definition ke_convert_to_bool : kx := KOp1 OCastToBool v0.
 Definition ke_convert_of_bool (t : ity) : kx := KOp1 (OCastOfBool t) v0.
